@@ -210,6 +210,101 @@ func (w *World) Structural() []structural {
 		out = append(out, structural{"structural#no-early-exit:" + FuncKey(f), sp.Props, len(early) == 0,
 			fmt.Sprintf("loops of a function that reports every violation must run to completion: %v", early), w.Fset.Position(f.Pos())})
 	}
+	// value semantics of slices (A3/A4): a function must not write through a slice it received by value - neither by
+	// storing to its elements nor by appending to a re-slice of it (append(xs[:0], ...) reuses the caller's array).
+	// Contracts may declare such writes (`modifies <param>`); anything else would make the callers' proofs unsound,
+	// so it is an obligation of every property whose functions live in the same package.
+	pkgProps := map[string]map[string]bool{}
+	for k, sp := range w.Specs {
+		i := strings.Index(k, ":")
+		if i < 0 || sp.Kind == "extern" {
+			continue
+		}
+		if pkgProps[k[:i]] == nil {
+			pkgProps[k[:i]] = map[string]bool{}
+		}
+		for _, p := range sp.Props {
+			pkgProps[k[:i]][p] = true
+		}
+	}
+	offences := map[string][]string{}
+	offPos := map[string]token.Position{}
+	for _, f := range w.repoFuncsSorted() {
+		key := FuncKey(f)
+		pk := key
+		if i := strings.Index(key, ":"); i >= 0 {
+			pk = key[:i]
+		}
+		top := f
+		for top.Parent() != nil {
+			top = top.Parent()
+		}
+		sp := w.SpecFor(top)
+		declared := func(p *ssa.Parameter) bool {
+			if sp == nil {
+				return false
+			}
+			for _, m := range sp.Modifies {
+				if rootIdent(m) == p.Name() || w.renamed(top, rootIdent(m)) == p.Name() {
+					return true
+				}
+			}
+			return false
+		}
+		for _, b := range f.Blocks {
+			for _, in := range b.Instrs {
+				if st, ok := in.(*ssa.Store); ok {
+					// a store to an element of a slice received by value (a parameter or a field of a by-value parameter)
+					addr := st.Addr
+					for {
+						if fa, ok := addr.(*ssa.FieldAddr); ok {
+							addr = fa.X
+							continue
+						}
+						break
+					}
+					if ia, ok := addr.(*ssa.IndexAddr); ok {
+						if _, isSlice := ia.X.Type().Underlying().(*types.Slice); isSlice {
+							if src := resliceOfForeign(ia.X, declared, true, false); src != "" {
+								offences[pk] = append(offences[pk], fmt.Sprintf("%s writes an element of %s", key, src))
+								offPos[pk] = w.Fset.Position(st.Pos())
+							}
+						}
+					}
+					continue
+				}
+				call, ok := in.(*ssa.Call)
+				if !ok {
+					continue
+				}
+				bi, ok := call.Call.Value.(*ssa.Builtin)
+				if !ok || bi.Name() != "append" || len(call.Call.Args) == 0 {
+					continue
+				}
+				if src := resliceOfForeign(call.Call.Args[0], declared, false, true); src != "" {
+					offences[pk] = append(offences[pk], fmt.Sprintf("%s appends to a re-slice of %s", key, src))
+					offPos[pk] = w.Fset.Position(call.Pos())
+				}
+			}
+		}
+	}
+	var pks []string
+	for pk := range pkgProps {
+		pks = append(pks, pk)
+	}
+	sort.Strings(pks)
+	for _, pk := range pks {
+		var props []string
+		for p := range pkgProps[pk] {
+			props = append(props, p)
+		}
+		sort.Strings(props)
+		if len(props) == 0 {
+			continue
+		}
+		out = append(out, structural{"structural#slices-received-by-value-are-not-written:" + pk, props, len(offences[pk]) == 0,
+			fmt.Sprintf("writes through a slice the caller can see - an element store, or an append to a re-slice (the elements behind the new length are overwritten in place): %v", offences[pk]), offPos[pk]})
+	}
 	out = append(out, structural{"structural#globals-written-only-in-init", []string{"C08", "C12", "C05", "C11"}, len(globalWrites) == 0, fmt.Sprintf("writes to package-level variables outside init: %v", globalWrites), token.Position{}})
 	return out
 }
@@ -484,4 +579,109 @@ func (w *World) sortedAfter(li *loopInfo, phi *ssa.Phi) bool {
 		}
 	}
 	return sorted
+}
+
+// resliceOfForeign reports (as a description, "" = no) whether v derives from a re-slice s[a:b] of a slice that is
+// visible outside the function: a parameter, a field of a by-value parameter, or memory reached through a pointer.
+func resliceOfForeign(v ssa.Value, declared func(*ssa.Parameter) bool, onlyDirect bool, ptrIsForeign bool) string {
+	seen := map[ssa.Value]bool{}
+	var walk func(v ssa.Value, depth int) string
+	var foreign func(v ssa.Value, depth int) string
+	foreign = func(v ssa.Value, depth int) string {
+		if depth > 20 || seen[v] {
+			return ""
+		}
+		seen[v] = true
+		switch x := v.(type) {
+		case *ssa.Parameter:
+			if declared(x) {
+				return ""
+			}
+			return "parameter " + x.Name()
+		case *ssa.FreeVar:
+			return "captured variable " + x.Name()
+		case *ssa.Field:
+			return foreign(x.X, depth+1)
+		case *ssa.UnOp:
+			if x.Op == token.MUL {
+				// a load: from a local variable holding a foreign slice, or through a pointer
+				switch a := x.X.(type) {
+				case *ssa.Alloc:
+					// local variable: look at what is stored into it
+					for _, r := range *a.Referrers() {
+						if st, ok := r.(*ssa.Store); ok && st.Addr == a {
+							if d := foreign(st.Val, depth+1); d != "" {
+								return d
+							}
+						}
+					}
+					return ""
+				default:
+					if ptrIsForeign {
+						return "memory reached through a pointer"
+					}
+					return ""
+				}
+			}
+		case *ssa.Slice:
+			return foreign(x.X, depth+1)
+		case *ssa.ChangeType:
+			return foreign(x.X, depth+1)
+		case *ssa.Phi:
+			for _, e := range x.Edges {
+				if d := foreign(e, depth+1); d != "" {
+					return d
+				}
+			}
+		case *ssa.Extract, *ssa.Lookup, *ssa.Index:
+			if ptrIsForeign {
+				return "an element of a composite value"
+			}
+		}
+		return ""
+	}
+	if onlyDirect {
+		return foreign(v, 0)
+	}
+	walked := map[ssa.Value]bool{}
+	walk = func(v ssa.Value, depth int) string {
+		if depth > 20 || walked[v] {
+			return ""
+		}
+		walked[v] = true
+		switch x := v.(type) {
+		case *ssa.Slice:
+			if _, isSlice := x.X.Type().Underlying().(*types.Slice); isSlice {
+				if d := foreign(x.X, 0); d != "" {
+					return d
+				}
+			}
+			return walk(x.X, depth+1)
+		case *ssa.ChangeType:
+			return walk(x.X, depth+1)
+		case *ssa.Phi:
+			for _, e := range x.Edges {
+				if d := walk(e, depth+1); d != "" {
+					return d
+				}
+			}
+		case *ssa.UnOp:
+			if a, ok := x.X.(*ssa.Alloc); ok && x.Op == token.MUL {
+				for _, r := range *a.Referrers() {
+					if st, ok := r.(*ssa.Store); ok && st.Addr == a {
+						if d := walk(st.Val, depth+1); d != "" {
+							return d
+						}
+					}
+				}
+			}
+		case *ssa.Call:
+			// x = append(x, ...) chains: follow the destination of an inner append
+			if bi, ok := x.Call.Value.(*ssa.Builtin); ok && bi.Name() == "append" && len(x.Call.Args) > 0 {
+				return walk(x.Call.Args[0], depth+1)
+			}
+		}
+		return ""
+	}
+	return walk(v, 0)
 }
